@@ -2,11 +2,15 @@
    equals what went on the wire - the premise of the C13 theorems; (b) the client's observed decision on a
    scripted server flight equals client_run. The boolean pair returned by [inst_info] (configured range within the
    advertised set, configured maximum 1.3 when the wire offers 1.3) names the specs that needed the repair. *)
-From UV Require Export Base.Common Model.Negotiate Proofs.NegotiateP Corr.NegotiateObs.
+From UV Require Export Base.Common Model.Negotiate Model.NegotiateSess Proofs.NegotiateP Corr.NegotiateObs.
 
 Inductive case :=
 | CInst (v : client_view) (specmin : N) (w : wire_view)
-| CVers (v : client_view) (specmin : N) (w : wire_view) (fl : flight) (o : observed).
+| CVers (v : client_view) (specmin : N) (w : wire_view) (fl : flight) (o : observed)
+(* second connection of a history: the hello offers the TLS <= 1.2 session cached by the first connection;
+   sh_ems = the ServerHello carries extended_master_secret; resumed = ConnectionState.DidResume *)
+| CHist (v : client_view) (specmin : N) (w : wire_view) (sess : option session12) (sh_ems : bool)
+        (fl : flight) (o : observed) (resumed : bool).
 
 Definition inst_info (v : client_view) (specmin : N) (w : wire_view) : bool * bool :=
   (versions_consistent v specmin w, canary_consistent v w).
@@ -15,4 +19,7 @@ Definition check (c : case) : bool :=
   match c with
   | CInst v m w => versions_synced v m w
   | CVers v m w fl o => versions_synced v m w && matches (client_run v fl) o
+  | CHist v m w sess ems fl o resumed =>
+      versions_synced v m w && matches (client_run_sess env_fixed v sess ems fl) o
+      && implb (o_complete o) (Bool.eqb resumed (did_resume env_fixed v sess fl))
   end.
